@@ -52,6 +52,22 @@ type Object struct {
 type Ptr struct{ Obj *Object }
 type pkgVar struct{ path, name string }
 
+// Stub stands for a value of an interface type supplied by a harness: it says which interfaces it satisfies (by
+// the name the source uses in assertions / type switches, without package qualifier) and how its methods behave.
+type Stub struct {
+	Name    string
+	Ifaces  map[string]bool
+	Methods map[string]func(args []Value) []Value
+}
+
+func typeNameOf(e ast.Expr) string {
+	s := types.ExprString(e)
+	if i := strings.LastIndex(s, "."); i >= 0 {
+		s = s[i+1:]
+	}
+	return s
+}
+
 // Closure is a function literal together with the frame it was created in.
 type Closure struct {
 	Lit *ast.FuncLit
@@ -422,6 +438,60 @@ func (m *Machine) stmt(fr *frame, s ast.Stmt) (ctl, []Value) {
 			return ctlContinue, nil
 		}
 		m.abort(x, "branch %s is not modelled", x.Tok)
+	case *ast.TypeSwitchStmt:
+		var subject ast.Expr
+		var bindName *ast.Ident
+		switch a := x.Assign.(type) {
+		case *ast.AssignStmt:
+			if ta, ok := a.Rhs[0].(*ast.TypeAssertExpr); ok {
+				subject = ta.X
+			}
+			bindName, _ = a.Lhs[0].(*ast.Ident)
+		case *ast.ExprStmt:
+			if ta, ok := a.X.(*ast.TypeAssertExpr); ok {
+				subject = ta.X
+			}
+		}
+		if subject == nil {
+			m.abort(x, "type switch is not modelled")
+		}
+		sv := m.eval(fr, subject)
+		st, ok := sv.(*Stub)
+		if !ok {
+			m.abort(x, "type switch on %T is not modelled", sv)
+		}
+		var chosen *ast.CaseClause
+		for _, cl := range x.Body.List {
+			cc := cl.(*ast.CaseClause)
+			if cc.List == nil {
+				if chosen == nil {
+					chosen = cc
+				}
+				continue
+			}
+			hit := false
+			for _, e := range cc.List {
+				if st.Ifaces[typeNameOf(e)] {
+					hit = true
+				}
+			}
+			if hit {
+				chosen = cc
+				break
+			}
+		}
+		if chosen != nil {
+			if bindName != nil {
+				if o := m.Info.Implicits[chosen]; o != nil {
+					fr.env[o] = sv
+				}
+			}
+			c, v := m.block(fr, chosen.Body)
+			if c == ctlBreak {
+				return ctlNone, nil
+			}
+			return c, v
+		}
 	case *ast.SwitchStmt:
 		if x.Init != nil {
 			m.stmt(fr, x.Init)
@@ -810,6 +880,25 @@ func (m *Machine) evalMulti(fr *frame, e ast.Expr) []Value {
 		return m.evalMulti(fr, x.X)
 	case *ast.FuncLit:
 		return []Value{Closure{Lit: x, fr: fr}}
+	case *ast.TypeAssertExpr:
+		v := m.eval(fr, x.X)
+		st, ok := v.(*Stub)
+		if !ok {
+			m.abort(e, "type assertion on %T is not modelled", v)
+		}
+		holds := x.Type != nil && st.Ifaces[typeNameOf(x.Type)]
+		if tv, ok := m.Info.Types[e]; ok {
+			if _, isTuple := tv.Type.(*types.Tuple); isTuple {
+				if holds {
+					return []Value{v, Bool{bitdom.Const(true)}}
+				}
+				return []Value{Err{Nil: true}, Bool{bitdom.Const(false)}}
+			}
+		}
+		if !holds {
+			m.abort(e, "type assertion to %s fails for the harness value %s", types.ExprString(x.Type), st.Name)
+		}
+		return []Value{v}
 	}
 	m.abort(e, "expression %T is not modelled", e)
 	return nil
@@ -945,6 +1034,10 @@ func (m *Machine) compare(n ast.Node, op token.Token, l, r Value) Value {
 		if e, ok := r.(Err); ok && e.Nil {
 			return Bool{bitdom.Const((a.Obj == nil) == (op == token.EQL))}
 		}
+	case *Stub:
+		if e, ok := r.(Err); ok && e.Nil {
+			return Bool{bitdom.Const(op != token.EQL)}
+		}
 	case Int:
 		b, ok := r.(Int)
 		if !ok {
@@ -1011,6 +1104,22 @@ func (m *Machine) call(fr *frame, c *ast.CallExpr) []Value {
 		fn, _ = m.Info.Uses[f.Sel].(*types.Func)
 		if sel, ok := m.Info.Selections[f]; ok && sel.Kind() == types.MethodVal {
 			recvExpr = f.X
+		}
+	}
+	if fn != nil && recvExpr != nil && m.Decls[fn] == nil {
+		if _, isIface := fn.Type().(*types.Signature).Recv().Type().Underlying().(*types.Interface); isIface {
+			rv := m.eval(fr, recvExpr)
+			if st, ok := rv.(*Stub); ok {
+				impl := st.Methods[fn.Name()]
+				if impl == nil {
+					m.abort(c, "harness value %s has no method %s", st.Name, fn.Name())
+				}
+				args := make([]Value, 0, len(c.Args))
+				for _, a := range c.Args {
+					args = append(args, m.eval(fr, a))
+				}
+				return impl(args)
+			}
 		}
 	}
 	if fn == nil {
